@@ -166,6 +166,33 @@ def args_probe(mode):
                             f'name with specs metadata ({len(q0)} vs {len(q1)} bytes)')
     except Exception as e:
         problems.append(f'metadata history probe raised {type(e).__name__}: {e}'[:200])
+    # a "graph function" that is not a plain function is refused and leaves no trace
+    try:
+        import functools
+
+        class Callable_:
+            def __call__(self, c=3):
+                Out.kr(0, SinOsc.kr(c))
+        for label, notf in (('functools.partial', functools.partial(ns['fz'])), ('callable instance', Callable_()),
+                            ('bound method', Callable_().__call__), ('a number', 3)):
+            try:
+                SynthDef('nf', notf)
+            except Exception:
+                r = c01.residue()
+                if not all(r.values()):
+                    problems.append(f'a build refused because the graph function is {label} left a trace: {r}')
+                    break
+    except Exception as e:
+        problems.append(f'non-function probe raised {type(e).__name__}: {e}'[:200])
+    # control names that occur more than once (wrapped functions sharing parameter names): part of the digests
+    try:
+        exec("def in1(freq=220, amp=0.5):\n    return SinOsc.kr(freq) * amp\n"
+             "def in2(amp=0.25, freq=330, pan=0):\n    return SinOsc.kr(freq) * amp + pan\n"
+             "def out2(freq=110, gate=1):\n    Out.kr(0, SynthDef.wrap(in1) + SynthDef.wrap(in2) + SinOsc.kr(freq) * gate)\n",
+             g3 := dict(ns, SynthDef=SynthDef))
+        digests.append(hashlib.sha1(bytes(SynthDef('rep', g3['out2']).as_bytes())).hexdigest())
+    except Exception as e:
+        problems.append(f'repeated-name probe raised {type(e).__name__}: {e}'[:200])
     # a definition made through the decorator whose writer fails leaves nothing registered for the next boot
     try:
         from sc3.synth.synthdef import synthdef as _deco
